@@ -722,7 +722,15 @@ func (c *FnCtx) lenCap(which string, x Val, t types.Type, h Heap) Val {
 			return Val{T: c.mode.idxLit(at.Len()), Ty: it}
 		}
 	case *types.Map:
-		return Val{T: sel(c.heapTerm(h, c.mapLenHeap(t)), x.T), Ty: it}
+		lenH, hasH := c.heapTerm(h, c.mapLenHeap(t)), c.heapTerm(h, c.mapHasHeap(t))
+		ks := c.sortOf(u.Key())
+		key := "lenmap:" + lenH + hasH + x.T
+		if !c.declSet[key] && !c.discover {
+			c.declSet[key] = true
+			// well-formed maps: length is non-negative, and an empty (or nil) map has no keys
+			c.define("(and (" + map[bool]string{true: "bvsge", false: ">="}[c.mode == ModeBV] + " " + sel(lenH, x.T) + " " + c.mode.idxLit(0) + ") (forall ((k " + ks + ")) (! (=> (= " + sel(lenH, x.T) + " " + c.mode.idxLit(0) + ") (not " + sel(sel(hasH, x.T), "k") + ")) :pattern (" + sel(sel(hasH, x.T), "k") + "))))")
+		}
+		return Val{T: sel(lenH, x.T), Ty: it}
 	case *types.Chan:
 		return Val{T: c.fresh("chanlen", c.mode.idxSort()), Ty: it}
 	}
@@ -774,8 +782,7 @@ func (c *FnCtx) sliceOp(in *ssa.Slice, get getter, h Heap, checks bool) Val {
 			hi = c.toIdx(get(in.High).T, in.High.Type())
 		}
 		ck(and(c.idxLe(z, lo), c.idxLe(lo, hi), c.idxLe(hi, "(s_len "+x.T+")")))
-		n := c.idxSub(hi, lo)
-		return Val{T: "(mk_slice (s_reg " + x.T + ") " + c.idxAdd("(s_off "+x.T+")", lo) + " " + n + " " + n + ")", Ty: in.Type()}
+		return Val{T: c.ssub(x.T, lo, hi), Ty: in.Type()}
 	case *types.Pointer:
 		at := u.Elem().Underlying().(*types.Array)
 		c.nilCheck(x, checks, "slice of array")
@@ -950,4 +957,18 @@ func (c *FnCtx) floatConv(x string, ft, tt types.Type) string {
 		c.decl("(assert (forall ((x " + c.sortOf(ft) + ")) (! (and (<= " + smtInt(ii.min()) + " (" + f + " x)) (<= (" + f + " x) " + smtInt(ii.max()) + ")) :pattern ((" + f + " x)))))")
 	}
 	return "(" + f + " " + x + ")"
+}
+
+// ssub is the substring s[lo:hi] as a function symbol (defined by an axiom), so that quantifier patterns
+// over substrings contain no arithmetic.
+func (c *FnCtx) ssub(s, lo, hi string) string {
+	c.declStrings()
+	I := c.mode.idxSort()
+	plus, minus := "+", "-"
+	if c.mode == ModeBV {
+		plus, minus = "bvadd", "bvsub"
+	}
+	c.decl("(declare-fun ssub (Slice " + I + " " + I + ") Slice)")
+	c.decl("(assert (forall ((s Slice) (lo " + I + ") (hi " + I + ")) (! (= (ssub s lo hi) (mk_slice (s_reg s) (" + plus + " (s_off s) lo) (" + minus + " hi lo) (" + minus + " hi lo))) :pattern ((ssub s lo hi)))))")
+	return "(ssub " + s + " " + lo + " " + hi + ")"
 }
